@@ -692,7 +692,14 @@ fn bare_api_walk(data: &[u8]) {
     };
     let mut sink = 0u64;
     let _ = f.section_headers_with_strtab();
-    let _ = f.section_header_by_name(".text");
+    // by-name lookups over the names a tool would ask for (present or not)
+    for n in [".text", ".data", ".bss", ".rodata", ".symtab", ".strtab", ".shstrtab", ".dynsym", ".dynstr", ".dynamic",
+              ".hash", ".gnu.hash", ".gnu.version", ".gnu.version_r", ".gnu.version_d", ".note.ABI-tag",
+              ".note.gnu.build-id", ".debug_info", ".debug_abbrev", ".debug_line", ".debug_str", ".zdebug_info",
+              ".comment", ".eh_frame", ".init", ".fini", ".plt", ".got", ".rela.dyn", ".rel.plt", ".interp", "", "x",
+              ".nosuch", ".text.hot", ".note.test"] {
+        let _ = std::hint::black_box(f.section_header_by_name(n));
+    }
     if let Ok(c) = f.find_common_data() {
         if let (Some(h), Some(s), Some(t)) = (&c.gnu_hash, &c.dynsyms, &c.dynsyms_strs) {
             let _ = h.find(b"memset", s, t);
@@ -794,6 +801,86 @@ fn split_pieces(s: &str) -> Vec<String> {
         out.push(s[*c..e].trim_end().to_string());
     }
     out
+}
+
+/// C06: the bare API calls of a stand-alone request, with the allocation counter armed
+pub fn oracle_alloc(line: &str) -> V {
+    let t: Vec<&str> = line.trim().split(' ').collect();
+    let count = |f: &dyn Fn()| -> u64 {
+        let b = alloc_count::arm();
+        f();
+        alloc_count::disarm(b)
+    };
+    let n = match t.as_slice() {
+        ["notes", le, cls, align, hexd] => {
+            let d = unhex(hexd);
+            let (e, c, a) = (any_endian(*le == "1"), class_of(cls), nat(align));
+            count(&|| {
+                let mut k = 0usize;
+                for n in elf::note::NoteIterator::new(e, c, a, &d) {
+                    if let elf::note::Note::Unknown(x) = &n { k += x.name_str().map(|s| s.len()).unwrap_or(0); }
+                    k += 1;
+                }
+                std::hint::black_box(k);
+            })
+        }
+        [kind @ ("sysv" | "gnu"), le, cls, symhex, strhex, namehex, hashhex] => {
+            let (e, c) = (any_endian(*le == "1"), class_of(cls));
+            let (sym, strs, name, hash) = (unhex(symhex), unhex(strhex), unhex(namehex), unhex(hashhex));
+            let is_gnu = *kind == "gnu";
+            count(&|| {
+                let symtab = SymbolTable::new(e, c, &sym);
+                let strtab = StringTable::new(&strs);
+                if is_gnu {
+                    if let Ok(t) = GnuHashTable::new(e, c, &hash) { let _ = std::hint::black_box(t.find(&name, &symtab, &strtab)); }
+                } else if let Ok(t) = SysVHashTable::new(e, c, &hash) {
+                    let _ = std::hint::black_box(t.find(&name, &symtab, &strtab));
+                }
+            })
+        }
+        ["verit", kind, le, cls, cnt, off, hexd] => {
+            let (e, c) = (any_endian(*le == "1"), class_of(cls));
+            let d = unhex(hexd);
+            let (cnt, off) = (cnt.parse::<u64>().unwrap_or(0), nat(off));
+            let kind = kind.to_string();
+            count(&|| {
+                let mut k = 0usize;
+                match kind.as_str() {
+                    "def" => for (_, ai) in elf::gnu_symver::VerDefIterator::new(e, c, cnt, off, &d) { k += ai.count() + 1; },
+                    "need" => for (_, ai) in elf::gnu_symver::VerNeedIterator::new(e, c, cnt, off, &d) { k += ai.count() + 1; },
+                    "defaux" => k += elf::gnu_symver::VerDefAuxIterator::new(e, c, cnt as u16, off, &d).count(),
+                    _ => k += elf::gnu_symver::VerNeedAuxIterator::new(e, c, cnt as u16, off, &d).count(),
+                }
+                std::hint::black_box(k);
+            })
+        }
+        ["strtab", off, hexd] => {
+            let d = unhex(hexd);
+            let off = nat(off);
+            count(&|| {
+                let t = StringTable::new(&d);
+                let _ = std::hint::black_box(t.get_raw(off));
+                let _ = std::hint::black_box(t.get(off));
+            })
+        }
+        ["table", "Symbol", le, cls, _ops, hexd] => {
+            let d = unhex(hexd);
+            let (e, c) = (any_endian(*le == "1"), class_of(cls));
+            count(&|| {
+                let t = SymbolTable::new(e, c, &d);
+                let mut k = t.len();
+                for i in 0..t.len() + 2 { if t.get(i).is_ok() { k += 1; } }
+                k += t.iter().count();
+                std::hint::black_box(k);
+            })
+        }
+        _ => 0,
+    };
+    if n > 0 {
+        Err(format!("C06: {} heap allocation(s) in the slice-parser API", n))
+    } else {
+        Ok(())
+    }
 }
 
 pub fn oracle_line2(line: &str, ann: &str) -> V {
